@@ -35,7 +35,8 @@ def run_plain(m: Any, inp: Tuple[Any, ...], backward: bool) -> Tuple[Any, Dict[s
     return tuple(o.detach().clone() for o in outs), grads
 
 
-def track(prog: Dict[str, Any], seed: int, backward: bool = True, calls: Optional[List[str]] = None) -> Dict[str, Any]:
+def track(prog: Dict[str, Any], seed: int, backward: bool = True, calls: Optional[List[str]] = None,
+          tier_a: bool = False) -> Dict[str, Any]:
     """Runs the program (a) plain, (b) under track_scales, (c) under an independent recording
     interpreter of the graph Dynamo captured.  Returns everything the oracles need."""
     import copy
@@ -51,11 +52,36 @@ def track(prog: Dict[str, Any], seed: int, backward: bool = True, calls: Optiona
     inp = inputs(prog, seed)
     plain = copy.deepcopy(m)
     y_plain, g_plain = run_plain(plain, inp, backward)
-    t = track_scales(m)
     captured: List[Any] = []
     ex_inputs: List[Any] = []
-    t.backends.insert(0, lambda gm, ex: (captured.append(gm), ex_inputs.append(list(ex)), gm)[-1])
-    torch._dynamo.reset()
+    if tier_a:
+        # tier A: the library's tracking backend called directly on an FX graph emitted from the AST
+        import torch.nn as nn
+
+        from models.programs import to_fx
+
+        tm = copy.deepcopy(m)
+        backend = track_scales(nn.Sequential()).backends[-1]
+        interp = backend(to_fx(prog, tm), [])
+
+        class _T:
+            def parameters(self) -> Any:
+                return tm.parameters()
+
+            def __call__(self, *a: Any) -> Any:
+                return interp(*a)
+
+            def scales_graph(self) -> Any:
+                return backend.graph
+
+        t: Any = _T()
+        captured.append(to_fx(prog, copy.deepcopy(m)))
+        ex_inputs.append([a.clone().requires_grad_(True) if a.is_floating_point() and i == 0 else a.clone()
+                          for i, a in enumerate(inp)])
+    else:
+        t = track_scales(m)
+        t.backends.insert(0, lambda gm, ex: (captured.append(gm), ex_inputs.append(list(ex)), gm)[-1])
+        torch._dynamo.reset()
     import dataclasses
 
     history = []
